@@ -26,16 +26,16 @@ fn gap() -> Piece {
     Piece::Slot("token gap", alts(&[b" ", b"  ", b"\t", b" \t "]))
 }
 fn clause_gap() -> Piece {
-    Piece::Slot("in-clause gap", alts(&[b" ", b"  ", b"\t", b"\n", b" \n\t", b"\nc in\n\n", b"\r\n", b"\nc\n \t", b" \r\nc x\r\n\r\n"]))
+    Piece::Slot("in-clause gap", alts(&[b" ", b"  ", b"\t", b"\n", b" \n\t", b"\nc in\n\n", b"\r\n", b"\nc\n \t", b" \r\nc x\r\n\r\n", b"\n\nc x\n", b"\n \t\nc a\n\nc b\n\n  "]))
 }
 fn line_end() -> Piece {
     Piece::Slot("line end", alts(&[b"\n", b"\r\n", b" \n", b"\t\r\n", b"  \t\n"]))
 }
 fn last_line_end() -> Piece {
-    Piece::Slot("last line end", alts(&[b"\n", b"", b"\r\n", b" \t", b" \n\n", b"\nc end", b"\n\n  \n"]))
+    Piece::Slot("last line end", alts(&[b"\n", b"", b"\r\n", b" \t", b" \n\n", b"\nc end", b"\n\n  \n", b"\n  ", b"\n\tc end\n", b"\n \t\n"]))
 }
 fn between() -> Piece {
-    Piece::Slot("between statements", alts(&[b"", b"c note\n", b"\n", b"c\n", b"c x\r\n", b"  \n", b"\t", b"c a\nc b\n\n"]))
+    Piece::Slot("between statements", alts(&[b"", b"c note\n", b"\n", b"c\n", b"c x\r\n", b"  \n", b"\t", b"c a\nc b\n\n", b"\nc x\n", b"  c indented\n"]))
 }
 fn before_header() -> Piece {
     Piece::Slot("before header", alts(&[b"", b"\n", b"c comment\n", b"c x\n\n", b"  ", b"\r\n \t", b"c\n"]))
